@@ -1257,12 +1257,12 @@ theorem C13_running_owner_ports_open (n : Node) (k : Nat × Nat) (u : Nat) (m : 
 
 /-- "every RUNNING installed software has its port open" — NOT claimed by C13 and false of the code: two classes with
 the same (port, protocol) share one `port_protocol_mapping` slot and only the later-installed one counts. -/
-def RunningImpliesOpen : Prop :=
+def C13_RunningImpliesOpen : Prop :=
   ∀ ops : List Op, let n := ({} : Node).run ops
     ∀ name u m, (name, u) ∈ n.software → n.isRunning u = true → n.metaOf u = some m → m.cls.port ∈ n.openPorts
 
 /-- web-server (80/tcp, RUNNING) installed before web-browser (80/tcp, CLOSED): port 80 is reported closed -/
-theorem C13_running_port_shadowed : ¬ RunningImpliesOpen := by
+theorem C13_running_port_shadowed : ¬ C13_RunningImpliesOpen := by
   intro h
   have := h [.installSvc { name := "web-server", port := 80, proto := 1, guarded := true } [] .good 2,
              .installApp { name := "web-browser", port := 80, proto := 1, guarded := false, ctorRuns := true } [] .good 2]
@@ -1296,7 +1296,7 @@ theorem C13_payload_guard_partial (n : Node) (port proto : Nat) (scan : Bool) (l
         exact Or.inl hh
 
 /-- the full statement: only RUNNING software gets a payload past its guard -/
-def FullPayload : Prop :=
+def C13_FullPayload : Prop :=
   ∀ (ops : List Op) (port proto : Nat) (scan : Bool) (l : List (Nat × Bool)), let n := ({} : Node).run ops
     n.deliverOut port proto scan = .recv l → ∀ u, (u, true) ∈ l → n.isRunning u = true
 
@@ -1310,7 +1310,7 @@ theorem C13_payload_guard_of_all_guarded (n : Node) (hg : ∀ u m, n.metaOf u = 
 
 /-- **Counterexample (F-23)**, the witness the rig replays: terminal (no guard) STOPPED, an ftp-server listening on 22
 is RUNNING; a payload for 22/tcp is handed to the STOPPED terminal, which processes it. -/
-theorem C13_payload_counterexample : ¬ FullPayload := by
+theorem C13_payload_counterexample : ¬ C13_FullPayload := by
   intro h
   have := h [.installSvc { name := "terminal", port := 22, proto := 1, guarded := false } [] .good 2,
              .svcReq "terminal" .stop,
@@ -1401,12 +1401,12 @@ example : FreshRun ({} : Node)
   decide
 
 /-- the full statement, without the freshness hypothesis -/
-def FullRegistries : Prop := ∀ ops : List Op, NamesAgree (({} : Node).run ops)
+def C13_FullRegistries : Prop := ∀ ops : List Op, NamesAgree (({} : Node).run ops)
 
 /-- **Counterexample (F-22)**, the witness the rig replays: install a class twice (nothing stops the second install),
 uninstall the name once: `software` no longer has it, `node.services` still holds the first object, which keeps being
 ticked and listed by `describe_state`. -/
-theorem C13_registries_counterexample : ¬ FullRegistries := by
+theorem C13_registries_counterexample : ¬ C13_FullRegistries := by
   intro h
   have := (h [.installSvc { name := "dns-client", port := 53, proto := 1, guarded := false } [] .good 2,
               .installSvc { name := "dns-client", port := 53, proto := 1, guarded := false } [] .good 2,
